@@ -3,6 +3,7 @@ import TextxVerif.BaseTypes
 import TextxVerif.BaseTypesLine
 import TextxVerif.Kwd
 import TextxVerif.KwdSrc
+import TextxVerif.Registry
 /-! Driver for the regex engine, the base types (C04) and autokwd (C21).
 Characters travel as code points.  `cc` = {"d":[cp…],"w":[cp…],"s":[cp…],"f":[[cp,cp]…]}: Python's classification
 of the non-ASCII characters of the case (digits, other word characters, spaces, case-fold pairs).
@@ -14,6 +15,8 @@ ops:
           "kinds": litKind of every literal (0 none, 1 int literal, 2 float literal with '.' or exponent)
           "want": litVal T of every literal (what C04_line_checked says the line yields)
         optional "ints":["decimal"…] adds "strs": Py.strInt of each (Python's str(int))
+        optional "hist":[[[key,name]…]…] (the register_obj_processors calls on the meta-model, in order) and "keys":[key…] add
+          "inforce": for every key "builtin" | "user:NAME" | "none" = Registry.after hist key
   {"op":"proc","name":N,"text":[cp…]}                                 → {"val":V}
   {"op":"kwlike","cc":…,"lits":[[cp…]…],"icase":b}                     → {"kw":[b…]}
   {"op":"compile","cc":…,"lits":[[cp…]…],"autokwd":b,"icase":b}        → {"toks":[{"kind":"str","lit":…,"icase":b}|{"kind":"re","re":AST,"value":[cp…],"groups":n}…]}
@@ -218,9 +221,23 @@ def handle (j : Json) : Json :=
         | some a => do
           let zs ← (← asArr? a).toList.mapM fun x => do (← asStr? x).toInt?
           pure [("strs", toJson (zs.map fun z => cps (Py.strInt z)))]
-      match base, line, ints with
-      | some b, some l, some i => Json.mkObj (b ++ l ++ i)
-      | _, _, _ => badOp
+      let reg : Option (List (String × Json)) :=
+        match getObj? j "hist" with
+        | none => some []
+        | some h => do
+          let hist ← (← asArr? h).toList.mapM fun r => do
+            (← asArr? r).toList.mapM fun kv => do
+              let a ← asArr? kv
+              pure ((← asStr? (← a[0]?)), (← asStr? (← a[1]?)))
+          let keys ← getStrList? j "keys"
+          let d := BaseTypes.Registry.after hist
+          pure [("inforce", toJson (keys.map fun k => match d k with
+            | none => "none"
+            | some .builtin => "builtin"
+            | some (.user n) => "user:" ++ n))]
+      match base, line, ints, reg with
+      | some b, some l, some i, some r => Json.mkObj (b ++ l ++ i ++ r)
+      | _, _, _, _ => badOp
     | _, _, _ => badOp
   | some "proc" =>
     match (getStr? j "name").bind proc?, (getObj? j "text").bind chars? with
